@@ -135,9 +135,37 @@ pub fn gen_packed_cycle(r: &mut Rng) -> EvidenceSet {
     EvidenceSet { n_vars, judgements }
 }
 
+/// One huge equivalence class: a hub (or a chain) of 1 200..3 000 variables
+/// declared equal, a few of them carrying compatible words.
+pub fn gen_hub(r: &mut Rng) -> EvidenceSet {
+    let n_vars = 1200 + r.usize_below(1800);
+    let mut judgements = Vec::new();
+    let chain = r.chance(1, 3);
+    let hub = r.usize_below(n_vars);
+    for v in 0..n_vars {
+        if v == hub {
+            continue;
+        }
+        let other = if chain { if v == 0 { hub } else { v - 1 } } else { hub };
+        if r.chance(1, 2) {
+            judgements.push((v, Ev::Equal { other }));
+        } else {
+            judgements.push((other, Ev::Equal { other: v }));
+        }
+    }
+    for _ in 0..3 {
+        judgements.push((r.usize_below(n_vars), Ev::word(*r.pick(&[None, Some(160)]), *r.pick(&[WordUse::Bytes, WordUse::UnsignedNumeric, WordUse::Address]))));
+    }
+    r.shuffle(&mut judgements);
+    EvidenceSet { n_vars, judgements }
+}
+
 pub fn gen_evidence(r: &mut Rng) -> EvidenceSet {
     if r.chance(1, 8) {
         return gen_packed_cycle(r);
+    }
+    if r.chance(1, 150) {
+        return gen_hub(r);
     }
     let cap = if r.chance(1, 4) { 39 } else { 10 };
     let n_vars = 2 + r.usize_below(cap);
@@ -411,7 +439,7 @@ impl Check for C14Check {
         CheckInfo {
             id: "C14",
             level: "exploration",
-            rule: "case = one generated judgement set over 2..40 type variables (equalities, words of all usages x widths {?,8,32,160,192,256}, dynamic bytes, mappings, fixed arrays of 2 lengths, dynamic arrays, Any; half of the sets also packed encodings with well-formed or arbitrary overlapping/unsorted spans; cyclic references in 1 of 5 sets; 1 of 8 sets is a ring of 1..3 packed encodings whose first span is the next variable of the ring plus a sized word, the family that reaches the unifier's stagnation check and round limit), unified under 6 schedules (3 natural hash keys, reverse-all, fold kind-sorted, seeded random), one of them with the state object used twice (half of the variables registered and an empty unification first, the rest allocated the way rules allocate them) and one with equalities recorded on one side only; evaluations = unifier runs; non-trivial = the run folded at least one class with >= 2 pieces of evidence; distinct = distinct (judgement set, fold-order digest), counted with a hash set",
+            rule: "case = one generated judgement set over 2..40 type variables (equalities, words of all usages x widths {?,8,32,160,192,256}, dynamic bytes, mappings, fixed arrays of 2 lengths, dynamic arrays, Any; half of the sets also packed encodings with well-formed or arbitrary overlapping/unsorted spans; cyclic references in 1 of 5 sets; 1 of 8 sets is a ring of 1..3 packed encodings whose first span is the next variable of the ring plus a sized word, the family that reaches the unifier's stagnation check and round limit; 1 of 150 is one class of 1 200..3 000 variables declared equal as a star or a chain), unified under 6 schedules (3 natural hash keys, reverse-all, fold kind-sorted, seeded random), one of them with the state object used twice (half of the variables registered and an empty unification first, the rest allocated the way rules allocate them) and one with equalities recorded on one side only; evaluations = unifier runs; non-trivial = the run folded at least one class with >= 2 pieces of evidence; distinct = distinct (judgement set, fold-order digest), counted with a hash set",
             assumptions: &[
                 "the unifier is driven through TypeCheckerState::register/infer and unification::unify, as the type checker itself does",
                 "reference model is one-directional: model-equal implies implementation-equal; additional unions are not forbidden",
